@@ -92,8 +92,15 @@ func canaries(orig cty.Value) []cty.Value {
 		}
 		if ty.IsTupleType() {
 			out = append(out, cty.TupleVal([]cty.Value{cn.Mark(mark), cs.Mark(mark), cty.True}))
+			// unmarked container of marked objects that share a canary attribute name with different types
+			out = append(out, cty.TupleVal([]cty.Value{
+				cty.ObjectVal(map[string]cty.Value{canaryStr: cty.StringVal("x")}).Mark(mark),
+				cty.ObjectVal(map[string]cty.Value{canaryStr: cty.TupleVal([]cty.Value{cty.StringVal("x")})}).Mark(mark),
+				cty.ObjectVal(map[string]cty.Value{canaryStr2: cty.True, "q": cty.Zero}).Mark(mark),
+			}))
 		}
 	case ty.IsMapType():
+		add(cty.MapVal(map[string]cty.Value{canaryStr: cty.StringVal(canaryStr2)}))
 		if ty.ElementType() == cty.Number {
 			add(cty.MapVal(map[string]cty.Value{canaryStr: cn, "a": canaryNum2}))
 			out = append(out, cty.MapVal(map[string]cty.Value{"a": cn.Mark(mark), "b": canaryNum2.Mark(mark)}))
@@ -104,6 +111,15 @@ func canaries(orig cty.Value) []cty.Value {
 		add(cty.ObjectVal(map[string]cty.Value{canaryStr: cn, "a": cn, "b": cs, "0": cs, "c": cty.TupleVal([]cty.Value{cn, canaryNum2}),
 			"l": cty.TupleVal([]cty.Value{cty.ObjectVal(map[string]cty.Value{"a": cn})})}))
 		out = append(out, cty.ObjectVal(map[string]cty.Value{"a": cn.Mark(mark), "b": cs.Mark(mark), "0": cs.Mark(mark), "c": cty.TupleVal([]cty.Value{cn.Mark(mark)})}))
+		// objects with exactly one / two attributes whose names are canaries
+		add(cty.ObjectVal(map[string]cty.Value{canaryStr: cn}))
+		add(cty.ObjectVal(map[string]cty.Value{canaryStr: cs, canaryStr2: cn}))
+		// unmarked object holding marked objects that share a canary attribute name with different types
+		out = append(out, cty.ObjectVal(map[string]cty.Value{
+			"a": cty.ObjectVal(map[string]cty.Value{canaryStr: cty.StringVal("x")}).Mark(mark),
+			"b": cty.ObjectVal(map[string]cty.Value{canaryStr: cty.TupleVal([]cty.Value{cty.StringVal("x")})}).Mark(mark),
+			"c": cty.TupleVal([]cty.Value{cn.Mark(mark)}),
+		}))
 	}
 	return out
 }
@@ -169,7 +185,7 @@ func gen(tier string, emit func(engine.Case) bool) {
 func erroneous() []*ex.E {
 	v, k := ex.Var("v"), ex.Var("k")
 	var out []*ex.E
-	for _, c := range []string{"ls", "ln", "mn", "ss", "sn", "t", "o", "lo", "sa", "one"} {
+	for _, c := range []string{"ls", "ln", "mn", "ss", "sn", "t", "o", "lo", "oo", "sa", "one"} {
 		cv := ex.Var(c)
 		out = append(out,
 			ex.ForO("k", "v", cv, ex.Str("x"), v, nil, false),     // duplicate key "x"
@@ -190,6 +206,18 @@ func erroneous() []*ex.E {
 			ex.ForT("", "v", cv, ex.Bin("+", v, ex.Num("1")), nil), ex.ForT("", "v", cv, v, v),
 			ex.Obj(ex.ExItem(cv, ex.Num("1"))), ex.Obj(ex.ExItem(ex.Tuple(cv), ex.Num("1"))),
 			ex.Bin("==", ex.Idx(cv, cv), ex.Num("1")),
+			// mismatching conditional arms built from parts of the marked value
+			ex.Cond(ex.Var("bt"), ex.Idx(cv, ex.Num("0")), ex.Idx(cv, ex.Num("1"))),
+			ex.Cond(ex.Var("bt"), ex.Tuple(ex.Num("1"), ex.Idx(cv, ex.Num("0"))), ex.Tuple(ex.Num("1"), ex.Idx(cv, ex.Num("1")))),
+			ex.Cond(ex.Var("bt"), ex.Obj(ex.IdItem("x", ex.Idx(cv, ex.Num("0")))), ex.Obj(ex.IdItem("x", ex.Idx(cv, ex.Num("1"))))),
+			ex.Cond(ex.Var("bt"), ex.Attr(cv, "a"), ex.Attr(cv, "b")),
+			ex.Cond(ex.Var("bt"), ex.Tuple(ex.Attr(cv, "a")), ex.Tuple(ex.Attr(cv, "b"))),
+			ex.Cond(ex.Var("bt"), ex.Obj(ex.IdItem("x", ex.Attr(cv, "a"))), ex.Obj(ex.IdItem("x", ex.Attr(cv, "b")))),
+			ex.Cond(ex.Var("bt"), cv, ex.Tuple(cv)),
+			ex.Cond(ex.Var("bt"), ex.Tuple(cv), ex.Tuple(ex.Tuple(cv))),
+			ex.ForO("", "v", ex.Tuple(ex.Idx(cv, ex.Num("0")), ex.Idx(cv, ex.Num("0"))), v, v, nil, false),
+			ex.Attr(ex.Idx(cv, ex.Num("0")), "nope"), ex.Attr(ex.Attr(cv, "a"), "nope"),
+			ex.Bin("+", ex.Idx(cv, ex.Num("0")), ex.Num("1")), ex.Call("add", ex.Attr(cv, "a"), ex.Num("1")),
 		)
 	}
 	return out
